@@ -1,8 +1,8 @@
 (* Proofs about the _unwrap_stream model (Unwrap.v): enough fuel, fetch-once, cycles
    give no stream, every fetch is covered by a fresh deadline check. *)
-From Coq Require Import ZArith List Bool Lia.
+From Coq Require Import ZArith List Bool Lia ZifyBool.
 From Common Require Import Res Str.
-From Untrusted Require Import Base Unwrap.
+From Untrusted Require Import Base Download Unwrap.
 Import ListNotations.
 Open Scope Z_scope.
 
@@ -39,7 +39,7 @@ Section Facts.
 
   (* the successor relation of the walk *)
   Definition next_of (u n : uri) : Prop :=
-    exists first rest, download (get u) = Some (first :: rest) /\ join u first = Some n.
+    exists dt first rest, download dt (get u) = Some (first :: rest) /\ join u first = Some n.
 
   (* a set of URIs closed under the walk *)
   Definition closed (nodes : list uri) : Prop :=
@@ -61,10 +61,10 @@ Section Facts.
       destruct (deadline - clock (k + 1) <? 0); [cbn; discriminate|].
       destruct (is_stream (scan u)); [cbn; discriminate|].
       destruct (deadline - clock (k + 2) <? 0); [cbn; discriminate|].
-      destruct (download (get u)) as [[|first rest]|] eqn:Hd; try (cbn; discriminate).
+      destruct (download (deadline - clock (k + 2)) (get u)) as [[|first rest]|] eqn:Hd; try (cbn; discriminate).
       destruct (join u first) as [n|] eqn:Hj; [|destruct fx; cbn; discriminate].
       apply IH.
-      + apply (Hc u n Hu). exists first, rest. auto.
+      + apply (Hc u n Hu). exists (deadline - clock (k + 2)), first, rest. auto.
       + intros x [Hx|Hx]; [subst; auto|auto].
       + constructor; [apply mem_str_false; exact Hm|exact Hnd].
       + cbn [length]. lia.
@@ -99,7 +99,7 @@ Section Facts.
       assert (Hs2 : NoDup (scanned log2)) by (unfold log2, scanned; cbn; exact Hs1).
       assert (Hd2 : NoDup (downloaded log2)).
       { unfold log2, log1, downloaded. cbn. constructor; auto. }
-      destruct (download (get u)) as [[|first rest]|]; try (cbn; auto).
+      destruct (download (deadline - clock (k + 2)) (get u)) as [[|first rest]|]; try (cbn; auto).
       destruct (join u first) as [n|]; [|destruct fx; cbn; auto].
       apply IH. repeat split; auto.
       + unfold log2, log1, scanned. cbn. intros x [Hx|Hx]; [left; auto|right; auto].
@@ -107,11 +107,14 @@ Section Facts.
   Qed.
 
   (* ---------------------------------------------------------------- cycles *)
-  (* every URI of the set is a playlist (no stream, downloads, parses to a non-empty
-     list) whose first entry leads back into the set *)
+  (* every URI of the set is a playlist (no stream; downloads in time whatever time is
+     left; parses to a non-empty list) whose first entry leads back into the set *)
   Definition all_playlists (nodes : list uri) : Prop :=
     forall u, In u nodes ->
-      is_stream (scan u) = false /\ exists n, next_of u n /\ In n nodes.
+      is_stream (scan u) = false
+      /\ exists n first rest,
+          (forall dt, 0 <= dt -> download dt (get u) = Some (first :: rest))
+          /\ join u first = Some n /\ In n nodes.
 
   Lemma loop_cycle_no_stream nodes :
     all_playlists nodes ->
@@ -126,10 +129,10 @@ Section Facts.
       destruct (clock k <? deadline); [|cbn; eauto].
       destruct (mem_str u seen) eqn:Hm; [cbn; eauto|].
       destruct (deadline - clock (k + 1) <? 0); [cbn; eauto|].
-      destruct (Hp u Hu) as (Hns & n & (first & rest & Hd & Hj) & Hn).
+      destruct (Hp u Hu) as (Hns & n & first & rest & Hd & Hj & Hn).
       rewrite Hns.
-      destruct (deadline - clock (k + 2) <? 0); [cbn; eauto|].
-      rewrite Hd, Hj.
+      destruct (deadline - clock (k + 2) <? 0) eqn:Hdt; [cbn; eauto|].
+      rewrite Hd by lia. rewrite Hj.
       apply IH; auto.
       + intros x [Hx|Hx]; [subst; auto|auto].
       + constructor; [apply mem_str_false; exact Hm|exact Hnd].
@@ -161,7 +164,7 @@ Section Facts.
     assert (Hl2 : Forall fetch_ok (FDownload u k (k + 2) (deadline - clock (k + 2))
                                      :: FScan u k (k + 1) (deadline - clock (k + 1)) :: log)).
     { constructor; [|exact Hl1]. unfold fetch_ok; cbn. repeat split; lia. }
-    destruct (download (get u)) as [[|first rest]|]; try exact Hl2.
+    destruct (download (deadline - clock (k + 2)) (get u)) as [[|first rest]|]; try exact Hl2.
     destruct (join u first); [|destruct fx; exact Hl2].
     apply IH. exact Hl2.
   Qed.
@@ -178,7 +181,7 @@ Section Facts.
     destruct (deadline - clock (k + 1) <? 0); [cbn; discriminate|].
     destruct (is_stream (scan u)); [cbn; discriminate|].
     destruct (deadline - clock (k + 2) <? 0); [cbn; discriminate|].
-    destruct (download (get u)) as [[|first rest]|]; try (cbn; discriminate).
+    destruct (download (deadline - clock (k + 2)) (get u)) as [[|first rest]|]; try (cbn; discriminate).
     destruct (join u first); [apply IH|rewrite Hfx; cbn; discriminate].
   Qed.
 End Facts.
@@ -288,7 +291,7 @@ Definition ex_a : uri := [97].
 Definition ex_b : uri := [98].
 Definition ex_scan (u : uri) : scan_out := ScanResult false (Some TEXT_).
 Definition ex_get (u : uri) : get_out :=
-  if str_eqb u ex_a then GetResponse true false [[46; 98]] else GetResponse true false [ex_a].
+  if str_eqb u ex_a then GetResponse true [0; 0] [[46; 98]] else GetResponse true [] [ex_a].
 Definition ex_join (u : uri) (r : str) : option uri :=
   if str_eqb r [46; 98] then Some ex_b else Some r.
 Definition ex_clock (n : nat) : Z := Z.of_nat n.
@@ -298,11 +301,19 @@ Example ex_cycle_hyps :
   /\ all_playlists ex_scan ex_get ex_join [ex_a; ex_b].
 Proof.
   split; [left; reflexivity|]. split.
-  - intros u n [Hu|[Hu|[]]] (first & rest & Hd & Hj); subst u; cbn in Hd;
+  - intros u n [Hu|[Hu|[]]] (dt & first & rest & Hd & Hj); subst u; unfold ex_get, download in Hd;
+      cbn [str_eqb list_eqb Z.eqb Pos.eqb andb ex_a ex_b] in Hd;
+      destruct (body_slow _ dt); try discriminate Hd;
       injection Hd as <- <-; cbn in Hj; injection Hj as <-; cbn; auto.
   - intros u [Hu|[Hu|[]]]; subst u; (split; [reflexivity|]).
-    + exists ex_b. split; [|cbn; auto]. exists [46; 98], []. split; reflexivity.
-    + exists ex_a. split; [|cbn; auto]. exists ex_a, []. split; reflexivity.
+    + exists ex_b, [46; 98], []. split; [|split; [reflexivity|cbn; auto]].
+      intros dt Hdt. unfold ex_get, download. cbn [str_eqb list_eqb Z.eqb Pos.eqb andb ex_a].
+      replace (body_slow [0; 0] dt) with false; [reflexivity|].
+      unfold body_slow. cbn [chunks length body_more Nat.ltb Nat.leb fst].
+      unfold late, body_clock. cbn [elapsed].
+      destruct (dt <? 1000 * (0 + 0 - 0)) eqn:E1; [lia|].
+      destruct (dt <? 1000 * (0 + (0 + 0) - 0)) eqn:E2; [lia|]. reflexivity.
+    + exists ex_a, ex_a, []. split; [|split; [reflexivity|cbn; auto]]. intros dt _. reflexivity.
 Qed.
 
 Example ex_cycle_runs :
@@ -316,7 +327,7 @@ Lemma unwrap_pinned_raises_lemma :
   exists scan get join clock timeout fuel start,
     fst (unwrap false scan get join clock timeout fuel start) = Raised ValueError.
 Proof.
-  exists (fun _ => ScanError), (fun _ => GetResponse true false [[91]]), (fun _ _ => None),
+  exists (fun _ => ScanError), (fun _ => GetResponse true [] [[91]]), (fun _ _ => None),
          ex_clock, 100, 2%nat, ex_a.
   vm_compute. reflexivity.
 Qed.
